@@ -97,10 +97,14 @@ impl LocalSpan {
     {
         #[cfg(feature = "enable")]
         if let Some(LocalSpanInner { stack, span_handle }) = &self.inner {
-            // Call the closure outside of the borrow: it may use the tracing API itself.
+            // Evaluate the closure, the (possibly lazy) iterator it returns and the conversions
+            // outside of the borrow: any of them may use the tracing API itself.
             let is_recording = stack.borrow_mut().is_recording();
             if is_recording {
-                let properties = properties();
+                let properties: Vec<(Cow<'static, str>, Cow<'static, str>)> = properties()
+                    .into_iter()
+                    .map(|(k, v)| (k.into(), v.into()))
+                    .collect();
                 stack
                     .borrow_mut()
                     .with_properties(span_handle, move || properties);
@@ -156,10 +160,14 @@ impl LocalSpan {
         {
             LOCAL_SPAN_STACK
                 .try_with(|s| {
-                    // Call the closure outside of the borrow: it may use the tracing API itself.
+                    // Evaluate the closure, the (possibly lazy) iterator it returns and the
+                    // conversions outside of the borrow: any of them may use the tracing API.
                     let is_recording = s.borrow_mut().is_recording();
                     if is_recording {
-                        let properties = properties();
+                        let properties: Vec<(Cow<'static, str>, Cow<'static, str>)> = properties()
+                            .into_iter()
+                            .map(|(k, v)| (k.into(), v.into()))
+                            .collect();
                         s.borrow_mut().add_properties(move || properties);
                     }
                     Some(())
